@@ -142,7 +142,7 @@ def quick():
             add(default=d, tag=0, nullv=("2+" if d == "null" else None))
             add(default=d, tag=0, ignorable=True, nullv=("2+" if d == "null" else None))
         add(ignorable=True)
-        for mk, key in (("response", None), ("header", None), ("data", None), ("request", 7), ("response", 18), ("request", 18)):
+        for mk, key in (("response", None), ("header", None), ("data", None), ("request", 7), ("response", 18), ("request", 18), ("response", 7)):
             add(mkind=mk, api_key=key, valid="0-3")
             add(mkind=mk, api_key=key, flex="0+")
     out += special_names() + two_field() + nested_shapes() + api_pairs() + name_clashes()
@@ -176,6 +176,17 @@ def special_names():
         for flex in ("none", "0+"):
             for mk in ("request", "response"):
                 out.append(make_def(mk, "0-1", flex, [F("Lead", "int8"), F(n, t, **kw), F("Trail", "int16")]))
+    # the same special names as TAGGED fields (ignorable, with and without default)
+    tagged = [("LogAppendTimeMs", "int64", {"default": "-1", "ignorable": True}), ("LogAppendTimeMs", "int64", {"default": "-1"}),
+              # (tagged + ignorable + no default on a ...Ms or ErrorCode field is left out: kio's documented convention makes
+              # such a field Optional with default None, for which these types have no wire form to compare with)
+              ("ThrottleTimeMs", "int32", {"default": "0"}), ("ErrorCode", "int16", {"default": "0"}),
+              ("TopicName", "string", {"entityType": "topicName", "ignorable": True}), ("TopicName", "string", {"entityType": "topicName", "default": "t"}),
+              ("BrokerId", "int32", {"entityType": "brokerId", "ignorable": True}), ("GroupId", "string", {"entityType": "groupId", "nullableVersions": "0+", "default": "null"}),
+              ("ProducerId", "int64", {"entityType": "producerId", "default": "-1"})]
+    for n, t, kw in tagged:
+        for mk in ("request", "response"):
+            out.append(make_def(mk, "0-1", "0+", [F("Lead", "int8"), F(n, t, tag=0, taggedVersions="0+", **kw), F("Trail", "int16")]))
     return out
 
 
